@@ -190,3 +190,23 @@ Definition C07_check_gate (h : list (act * obs)) : bool :=
 Definition C07_check_pipe (hdr : list Z) (recs : list (list Z * bool)) (strm : list Z) (hung : bool) : bool :=
   negb hung &&
   zlist_eqb strm (hdr ++ concat (map fst (filter snd recs))).
+
+(* Through DataPublisher.PublishData the result of the LJH WriteRecord calls is not visible (PublishData
+   ignores it), so which records were accepted is unknown; the file must still be the header followed by
+   whole records only, in the order written: the stream after the header is the concatenation of a
+   subsequence of the records.  Greedy matching decides this when no record is a prefix of a later one
+   (the harness gives every record a distinct frame counter in its first bytes). *)
+Fixpoint match_sub (recs : list (list Z)) (s : list Z) : bool :=
+  match recs with
+  | [] => match s with [] => true | _ => false end
+  | r :: rest =>
+      if prefix_b r s && negb (zlen r =? 0) then match_sub rest (zskipn (zlen r) s) else match_sub rest s
+  end.
+Fixpoint strip_prefix (h s : list Z) : option (list Z) :=
+  match h, s with
+  | [], _ => Some s
+  | x :: h', y :: s' => if x =? y then strip_prefix h' s' else None
+  | _ :: _, [] => None
+  end.
+Definition C07_check_pipe_sub (hdr : list Z) (recs : list (list Z)) (strm : list Z) (hung : bool) : bool :=
+  negb hung && match strip_prefix hdr strm with Some rest => match_sub recs rest | None => false end.
